@@ -73,27 +73,7 @@ def check(ctx):
     ctx.inst('R2', ins, 'no-loop-writes', not loops, 'no incremental writing')
 
     # ---- R4 ----------------------------------------------------------------------------
-    enc = tc.method('_encoder')
-    dec = tc.method('_decoder')
-    ekeys, e_ext = encoder_keys(enc)
-    dkeys, d_ext = decoder_keys(dec)
-    ctx.need(ekeys and dkeys, 'encoder/decoder key tables not recognised')
-    ctx.inst('R4', enc, 'key-sets-agree', set(ekeys) == set(dkeys), 'encoder keys %s vs decoder keys %s' % (sorted(ekeys), sorted(dkeys)))
-    for k in sorted(set(ekeys) | set(dkeys)):
-        if k == '__class__':
-            continue
-        ctx.inst('R4', enc, 'key<->attr:' + k, ekeys.get(k) == k and dkeys.get(k) == k,
-                 'key %r is written from attribute %r and read into attribute %r' % (k, ekeys.get(k), dkeys.get(k)))
-    ctx.inst('R4', enc, 'class-tag', ekeys.get('__class__') == '__class__.__name__' and dkeys.get('__class__') == '<eval>', 'class tag written from the class name and used to construct the element')
-    ctx.inst('R4', enc, 'extended-param-only', e_ext == {'extended'} and d_ext == {'extended'},
-             'conditional (ParamTocElement only) keys: encoder %s decoder %s' % (sorted(e_ext), sorted(d_ext)))
-    # attribute inventory of the two element classes
-    for path, cname in ((LOG, 'LogTocElement'), (PAR, 'ParamTocElement')):
-        k = m.cls(path, cname)
-        attrs = {t.attr for s in walk_own(k.method('__init__').node) if isinstance(s, ast.Assign) for t in s.targets
-                 if isinstance(t, ast.Attribute) and isinstance(t.value, ast.Name) and t.value.id == 'self'}
-        uncached = attrs - set(ekeys) - set(REVIEWED_UNCACHED)
-        ctx.inst('R4', (path, cname), 'all-attributes-cached', not uncached, 'element attributes not cached and not in the reviewed exception table: %s' % sorted(uncached))
+    cache_codec_rules(ctx, 'R4')
 
     # ---- R5 ----------------------------------------------------------------------------
     rpat, rfun = cache_name_rules(ctx, 'R5')
@@ -154,6 +134,36 @@ def check(ctx):
     init = tc.method('__init__')
     st = [s for s in walk_own(init.node) if isinstance(s, ast.Assign) and norm(s.targets[0]) == 'self._rw_cache']
     ctx.inst('R6', init, 'rw-attr', len(st) == 1 and norm(st[0].value) == 'rw_cache', 'self._rw_cache is the rw_cache argument')
+
+
+def cache_codec_rules(ctx, rule='R4'):
+    """Encoder and decoder of the cache agree: same keys, each key written from and read into the same attribute, `extended` handled for
+    parameter elements on both sides.  Shared with C03 (cache present: the adopted table carries the device's attributes incl. the
+    extended marker that triggers the persistence query)."""
+    m = ctx.model
+    tc = m.cls(TC, 'TocCache')
+    enc = tc.method('_encoder')
+    dec = tc.method('_decoder')
+    ekeys, e_ext = encoder_keys(enc)
+    dkeys, d_ext = decoder_keys(dec)
+    ctx.need(ekeys and dkeys, 'encoder/decoder key tables not recognised')
+    ctx.inst(rule, enc, 'key-sets-agree', set(ekeys) == set(dkeys), 'encoder keys %s vs decoder keys %s' % (sorted(ekeys), sorted(dkeys)))
+    for k in sorted(set(ekeys) | set(dkeys)):
+        if k == '__class__':
+            continue
+        ctx.inst(rule, enc, 'key<->attr:' + k, ekeys.get(k) == k and dkeys.get(k) == k,
+                 'key %r is written from attribute %r and read into attribute %r' % (k, ekeys.get(k), dkeys.get(k)))
+    ctx.inst(rule, enc, 'class-tag', ekeys.get('__class__') == '__class__.__name__' and dkeys.get('__class__') in ('<eval>', '<table>'), 'class tag written from the class name and used to construct the element')
+    ctx.inst(rule, enc, 'extended-param-only', e_ext == {'extended'} and d_ext == {'extended'},
+             'conditional (ParamTocElement only) keys: encoder %s decoder %s' % (sorted(e_ext), sorted(d_ext)))
+    # attribute inventory of the two element classes
+    for path, cname in ((LOG, 'LogTocElement'), (PAR, 'ParamTocElement')):
+        k = m.cls(path, cname)
+        attrs = {t.attr for s in walk_own(k.method('__init__').node) if isinstance(s, ast.Assign) for t in s.targets
+                 if isinstance(t, ast.Attribute) and isinstance(t.value, ast.Name) and t.value.id == 'self'}
+        uncached = attrs - set(ekeys) - set(REVIEWED_UNCACHED)
+        ctx.inst(rule, (path, cname), 'all-attributes-cached', not uncached, 'element attributes not cached and not in the reviewed exception table: %s' % sorted(uncached))
+
 
 
 def cache_name_rules(ctx, rule='R5'):
@@ -336,6 +346,8 @@ def decoder_keys(dec):
                 cond.add(k)
         elif any(isinstance(x, ast.Call) and dotted(x.func) == 'eval' for x in ast.walk(v)):
             keys[k] = '<eval>'
+        elif isinstance(v, ast.Call) and isinstance(v.func, ast.Subscript) and subs[0] is v.func.slice:
+            keys[k] = '<table>'          # class looked up in a name -> class table
     return keys, cond
 
 
